@@ -10,6 +10,7 @@ var Registry = map[string]func(*core.Ctx){
 	"C06": C06,
 	"C07": C07,
 	"C09": C09,
+	"C11": C11,
 	"C12": C12,
 	"C13": C13,
 	"C14": C14,
